@@ -165,6 +165,10 @@ def check_framing(model, col, rule):
 
     good = bool(o) and limit_seq(True) == [("byte", 1), ("leb", "min"), ("leb", "max")] and limit_seq(False) == [("byte", 0), ("leb", "min")]
     col.check(good, rule, f"{WA}::Memory.WriteTo", "limits: 0x01 min max | 0x00 min", f"memory limits are written as {o}", WA, f)
+    if "Encode" not in model.cls(WA, "Code").methods:
+        col.bad(rule, f"{WA}::Code.Encode", "a function body is no longer encoded into one buffer whose length is written in front of it: the size field is computed apart from the bytes "
+                "that follow (a running total, a formula), so the two can disagree and the next body is misframed", WA, model.cls(WA, "Code").node)
+        return
     c, f, t = term_of("Code", "Encode")
     bufs = [b for b in t.local_buffers]
     o = t.out(bufs[0]) if bufs else []
@@ -484,6 +488,20 @@ def run(model, col, tier):
             ob.detail = f"[{ob.rule}] " + (ob.detail or "")
             ob.rule = "R07.7"
             col.obligations.append(ob)
+    # the operator an arithmetic / comparison instruction is translated to has the value type of its operands (= R06.3 the
+    # operator table, R06.4 the operand type of a comparison): `i32.le_s` over f32 locals does not type-check
+    from . import c06 as _c06
+
+    sub = Collector("C06")
+    _c06.run(model, sub, "quick", share=False)
+    n06 = 0
+    for ob in sub.obligations:
+        if ob.rule in ("R06.3", "R06.4"):
+            ob.detail = f"[{ob.rule}] " + (ob.detail or "")
+            ob.rule = "R07.6"
+            col.obligations.append(ob)
+            n06 += 1
+    col.floor("R07.6", "operator-selection obligations shared with C06", n06, 10)
     # ---------------- R07.8 nothing of one function / one compilation leaks into the next ------------
     # per-function tables of v_Function are created in v_Function
     filled = {}
